@@ -29,6 +29,9 @@ type C01Pkg struct {
 	Responses map[string][]string `json:"responses,omitempty"` // "METHOD /path" -> response keys ("200","4XX","default")
 	// Defaults: "METHOD /path" -> parameter/field path -> expected default (rendered by Descr); optional
 	Config string `json:"config,omitempty"`
+	// Defaults: "METHOD /path" -> field path (".P") -> Descr of the value an unset member must arrive as
+	Defaults map[string]map[string]string `json:"defaults,omitempty"`
+	Combos   map[string]string            `json:"combos,omitempty"` // "METHOD /path" -> description (matrix specs)
 }
 
 type C01Data struct {
@@ -357,7 +360,9 @@ func c01Pkg(r *ev.Run, d *C01Data, pc *C01Pkg) error {
 				okBuild = okBuild && ok
 			}
 			if parT != nil {
+				b.NonEmpty = true
 				parV, ok = b.Validated(parT, 10)
+				b.NonEmpty = false
 				okBuild = okBuild && ok
 			}
 			if !okBuild {
@@ -438,7 +443,7 @@ func c01Pkg(r *ev.Run, d *C01Data, pc *C01Pkg) error {
 			r.Distinct(pc.Origin + "|" + op.Name + "|" + mode + "|" + Descr(sentReq) + "|" + Descr(sentPar) + "|" + Descr(retSnap))
 			var last *WireRecord
 			wit := func(extra map[string]any) map[string]any {
-				m := map[string]any{"origin": pc.Origin, "operation": op.Name, "route": op.Method + " " + op.Path, "mode": mode, "request": Descr(sentReq), "params": Descr(sentPar), "handler_returns": Descr(retSnap)}
+				m := map[string]any{"origin": pc.Origin, "operation": op.Name, "route": op.Method + " " + op.Path, "combination": pc.Combos[op.Method+" "+op.Path], "mode": mode, "request": Descr(sentReq), "params": Descr(sentPar), "handler_returns": Descr(retSnap)}
 				if last != nil {
 					m["wire_request"] = clip(last.RequestBytes)
 					m["wire_status"] = last.Status
@@ -547,6 +552,30 @@ func c01Pkg(r *ev.Run, d *C01Data, pc *C01Pkg) error {
 			}
 			if len(defaults) > 0 {
 				r.Count("members_unset_arrived_as_default", len(defaults))
+			}
+			if want := pc.Defaults[op.Method+" "+op.Path]; want != nil {
+				// the expected default is computed from the spec (side-car), not from generated setDefaults()
+				for fpath, w := range want {
+					sentUnset := false
+					if s, ok := sentPar.(*SStruct); ok {
+						if o, ok := s.Fields[strings.TrimPrefix(fpath, ".")].(*SOpt); ok && o.State == "unset" {
+							sentUnset = true
+						}
+					}
+					if !sentUnset {
+						continue
+					}
+					got := ""
+					for _, d := range defaults {
+						if strings.HasPrefix(d, fpath+"=") {
+							got = strings.TrimPrefix(d, fpath+"=")
+						}
+					}
+					r.Count("defaults_checked_against_spec", 1)
+					if got != w {
+						viol("default-not-applied", fmt.Sprintf("unset parameter with schema default: handler received %q, the spec's default is %s (%s)", got, w, pc.Combos[op.Method+" "+op.Path]), map[string]any{"received": Descr(c.params)})
+					}
+				}
 			}
 			// middleware saw what the handler saw
 			if len(mws) != 1 {
